@@ -3,9 +3,37 @@
    the lines the harness prints for the implementation. *)
 open Conv
 
+(* "f a t e signer" x k  ->  slots *)
+let rec slots_of k toks =
+  if k = 0 then ([], toks) else
+    match toks with
+    | f :: a :: t :: e :: sg :: rest ->
+      let sg = int_of_string sg in
+      let s = mk_slot (nat_of_int (int_of_string f)) (a = "1") (t = "1") (e = "1")
+          (if sg < 0 then None else Some (nat_of_int sg)) in
+      let (l, rest') = slots_of (k - 1) rest in (s :: l, rest')
+    | _ -> failwith "bad slot"
+
+(* "N" | "C hc rc bc k slots..." -> commit option *)
+let commit_of toks =
+  match toks with
+  | "N" :: rest -> (None, rest)
+  | "C" :: hc :: rc :: bc :: k :: rest ->
+    let (sl, rest') = slots_of (int_of_string k) rest in
+    (Some (mk_commit (nat_of_int (int_of_string hc)) (nat_of_int (int_of_string rc)) (nat_of_int (int_of_string bc)) sl), rest')
+  | _ -> failwith "bad commit"
+
+let rec take k l = if k = 0 then ([], l) else match l with x :: r -> let (a, b) = take (k - 1) r in (x :: a, b) | [] -> failwith "short"
+
+let string_of_vresult = function
+  | VOk -> "ok" | VNilCommit -> "nilcommit" | VBasic -> "basic" | VSize -> "size" | VHeight -> "height" | VBlock -> "blockid"
+  | VSig i -> Printf.sprintf "sig %d" (int_of_nat i)
+  | VPower (g, nd) -> Printf.sprintf "power %s %s" (string_of_z g) (string_of_z nd)
+
 let () =
   let lines = read_lines stdin in
   let height = ref 0 and powers = ref [] and flags = ref [] and trace = ref [] in
+  let pst = ref run_p_init and pvals = ref [] in
   let tr () = List.rev !trace in
   List.iter (fun l ->
       match tokens l with
@@ -31,5 +59,34 @@ let () =
       | ["C"; node; r; b] ->
         let q = run_commit_quorum !powers (tr ()) (nat_of_int (int_of_string r)) (nat_of_int (int_of_string b)) in
         Printf.printf "h=%d node=%s quorum=%d\n" !height node (if q then 1 else 0)
+      | "VC" :: n :: rest ->
+        let (ps, rest) = take (int_of_string n) rest in
+        (match rest with
+         | hw :: bw :: rest ->
+           let (oc, _) = commit_of rest in
+           let r = run_verify_commit (List.map z_of_string ps) (nat_of_int (int_of_string hw)) (nat_of_int (int_of_string bw)) oc in
+           Printf.printf "vc %s\n" (string_of_vresult r)
+         | _ -> failwith "bad VC")
+      | ["PINIT"] -> pst := run_p_init; pvals := []
+      | "PVALS" :: _h :: n :: rest ->
+        let (ps, _) = take (int_of_string n) rest in
+        pvals := !pvals @ [List.map z_of_string ps]
+      | "PB" :: peer :: h :: id :: rest ->
+        let (oc, _) = commit_of rest in
+        let b = mk_blk (nat_of_int (int_of_string h)) (nat_of_int (int_of_string id)) oc in
+        let (st, out) = run_p_handle !pvals !pst (ev_block (nat_of_int (int_of_string peer)) b) in
+        pst := st;
+        Printf.printf "pb %s\n" (match out with ODupPanic -> "dup" | _ -> "ok")
+      | ["PP"] ->
+        let (st, out) = run_p_handle !pvals !pst ev_process in
+        pst := st;
+        Printf.printf "pp %s\n" (match out with
+            | OProcessed h -> Printf.sprintf "processed %d" (int_of_nat h)
+            | ORefused h -> Printf.sprintf "refused %d" (int_of_nat h)
+            | OApplyPanic _ -> "PANIC" | OFinished -> "finished" | _ -> "idle")
+      | ["PE"; peer] ->
+        let (st, _) = run_p_handle !pvals !pst (ev_peer_error (nat_of_int (int_of_string peer))) in
+        pst := st;
+        Printf.printf "pe\n"
       | l -> failwith ("bad line: " ^ String.concat " " l))
     lines
